@@ -215,10 +215,22 @@ pub fn run(rep: &mut Report) {
     // order independence (depth-2 operation sequences on one thread): 18 dates (mirrored about 1900, leap classes, far
     // years) x 2 times of day x 4 scales decomposed in every order
     {
-        let od: Vec<i64> = [(1i64, 1i64, 1i64), (1, 3, 1), (4, 2, 29), (1400, 1, 1), (1582, 10, 15), (1899, 12, 31), (1900, 1, 1), (1900, 3, 1), (1972, 6, 30), (2000, 2, 29), (2016, 12, 31), (2017, 1, 1), (2024, 11, 30), (2400, 1, 1), (2400, 12, 31), (9999, 12, 31), (-400, 3, 1), (12_000, 7, 4)].iter().map(|(y, m, d)| days1900(*y, *m, *d)).collect();
+        let od: Vec<i64> = [(1i64, 1i64, 1i64), (1, 3, 1), (4, 2, 29), (1400, 1, 1), (1582, 10, 15), (1899, 12, 31), (1900, 1, 1), (1900, 3, 1), (1972, 6, 30), (2000, 2, 29), (2016, 12, 31), (2017, 1, 1), (2024, 11, 30), (2400, 1, 1), (2400, 12, 31), (9999, 12, 31), (-400, 3, 1), (12_000, 7, 4)].iter().map(|(y, m, d)| days1900(*y, *m, *d)).chain([18_427i64, -18_427, 36_525, -36_525]).collect(); // (+ days mirrored about 1900-01-01)
         let os = [TimeScale::TAI, TimeScale::UTC, TimeScale::GPST, TimeScale::TDB];
         let no = od.len() as u64;
         crate::engine::order_pairs(rep, "c09.order", no * 2 * 4, |i, out| j_fields(od[(i % no) as usize], [0i128, 86_399 * NS_S + 999_999_999][((i / no) % 2) as usize], os[(i / (2 * no)) as usize], out));
+    }
+    // far years: EVERY year of -12 000 ..= 12 000 (thorough: -30 000 ..= 30 000) on three dates at the last nanosecond of the
+    // day, scales rotating (the closed forms and year walks of the decomposition, year by year)
+    {
+        let span: i64 = if q { 12_000 } else { 30_000 };
+        let ny = (2 * span + 1) as u64;
+        rep.bound("far_year_scan", format!("{ny} years x 3 dates"));
+        sweep(rep, "c09.fields[far-years]", ny * 3, |i, out| {
+            let y = (i / 3) as i64 - span;
+            let (m, d) = [(1i64, 1i64), (6, 15), (12, 31)][(i % 3) as usize];
+            j_fields(days1900(y, m, d), 86_399 * NS_S + 999_999_999, SCALES[(i % 9) as usize], out)
+        });
     }
     let nd = days.len() as u64;
     // the implementation's cost grows with the distance from 1900; quick tier uses 3 of the 9 times of day outside 1600-2400
